@@ -40,6 +40,10 @@ CONSTANTS
     Two,           \* BOOLEAN: second session + relay (tunnel-to-tunnel copy paths)
     FlushLeftover, \* TRUE: the design the property needs (WriteTo/tunnel copy first hand over
                    \* the left-over read buffer); FALSE: the code as it is (finding F11)
+    RelayInit,     \* TRUE: the design (a tunnel copy into a server tunnel that has not answered yet writes the
+                   \* response header first, whatever the reading side did before); FALSE: the code as it is
+                   \* (only a client tunnel that has not read yet takes that path; otherwise the nil write
+                   \* cipher is used: finding stream.relay/first-write-after-plain-read)
     AddrLens,      \* SOCKS address lengths of the targets dialled (7 = IPv4, 19 = IPv6, 4+L = domain)
     Pads,          \* candidate padding lengths (the real client draws them at random)
     PSizes,        \* initial payload sizes
@@ -323,13 +327,13 @@ Read(e, m) ==
 Pieces(w) == (IF Left(w) > 0 /\ FlushLeftover THEN <<Left(w)>> ELSE <<>>) \o PySizes(wire[w])
 CanDrain(e) == CanRead(e) /\ fly[Peer(e)] = 0
 
-Drain(e, w) ==
+Drain(e, w, crashx) ==
     /\ arr' = [arr EXCEPT ![w] = 0]
     /\ rN' = [rN EXCEPT ![w] = @ + Len(wire[w])]
     /\ rbuf' = [rbuf EXCEPT ![w] = [lo |-> sent[w], hi |-> sent[w]]]
     /\ dlv' = [dlv EXCEPT ![w] = @ + Sum(Pieces(w))]
-    /\ mixed' = [mixed EXCEPT ![w] = @ \/ Left(w) > 0]
-    /\ bad' = [bad EXCEPT ![w] = @ \/ (Left(w) > 0 /\ ~FlushLeftover)]
+    /\ mixed' = [x \in Ends |-> mixed[x] \/ (x = w /\ Left(w) > 0) \/ x = crashx]
+    /\ bad' = [x \in Ends |-> bad[x] \/ (x = w /\ Left(w) > 0 /\ ~FlushLeftover) \/ x = crashx]
     /\ eof' = [eof EXCEPT ![w] = closed[w]]
     /\ rinit' = [rinit EXCEPT ![e] = @ /\ wire[w] = <<>>]
     /\ nr' = Inc(nr)
@@ -338,7 +342,7 @@ Drain(e, w) ==
 WriteTo(e) ==
     LET w == Peer(e) IN
     /\ CanDrain(e) /\ "wt" \in Paths
-    /\ Drain(e, w)
+    /\ Drain(e, w, "none")
     /\ wire' = [wire EXCEPT ![w] = <<>>]
     /\ UNCHANGED <<st, dial, req, sent, fly, wN, closed, rerr, winit, nw>>
     /\ act' = [n |-> "WriteTo", e |-> e,
@@ -352,11 +356,13 @@ Relay(r, x) ==
     LET w == Peer(r)
         ps == Pieces(w)
         fr == PieceFrames(ps, sent[x], wN[x], winit[x])
+        \* stream.go:216-241: only a client tunnel that has not read yet writes x's response header
+        crash == ~RelayInit /\ ~IsClient(x) /\ winit[x] /\ ~rinit[r] /\ ps # <<>>
     IN
     /\ Two /\ "t2t" \in Paths
     /\ <<r, x>> \in {<<"As", "Bc">>, <<"Bc", "As">>}
     /\ CanDrain(r) /\ CanWrite(x)
-    /\ Drain(r, w)
+    /\ Drain(r, w, IF crash THEN x ELSE "none")
     /\ wire' = [wire EXCEPT ![w] = <<>>, ![x] = @ \o fr]
     /\ fly' = [fly EXCEPT ![x] = @ + Bytes(fr)]
     /\ wN' = [wN EXCEPT ![x] = @ + Len(fr)]
@@ -366,7 +372,7 @@ Relay(r, x) ==
     /\ UNCHANGED <<st, dial, req, closed, rerr>>
     /\ act' = [n |-> "Relay", e |-> r, x |-> x,
                out |-> [res |-> IF closed[w] THEN "eof" ELSE "block", lo |-> dlv[w], n |-> Sum(ps),
-                        pieces |-> ps, left |-> Left(w), tw |-> TW(fr)]]
+                        pieces |-> ps, left |-> Left(w), tw |-> TW(fr), crash |-> crash]]
 
 Next ==
     \/ \E s \in Sess, al \in AddrLens, p \in PSizes, pad \in Pads : Dial(s, al, p, pad)
